@@ -250,8 +250,8 @@ def mbLoop (mb : Nat → List (V3 α) → Option (V3 α × α)) (rand : Nat → 
       let cur := rand attempt
       mbLoop mb rand V fuel attempt cur (V.map (Quat.rotate cur))
 
-/-- `max_attempts = 10` -/
-def maxAttempts : Nat := 10
+/-- `max_attempts = 50` (500eda1; it was 10) -/
+def maxAttempts : Nat := 50
 
 /-- the loop and the tail of `minimal_bounding_circle/sphere` around an arbitrary `try` block
 `attempt : attempt number → points → Option (centre, r²)` (`none` = the block raised `LinAlgError`) -/
